@@ -22,6 +22,19 @@ if BUILD not in sys.path:
 
 import logging  # noqa: E402
 
+# Environment seam: the number of usable CPUs is an input of the process environment that library code can
+# read (os.sched_getaffinity / os.cpu_count).  The cross-process phase runs the same histories under two
+# different simulated CPU counts (VERIF_FAKE_CPUS), like it does for PYTHONHASHSEED.
+_FAKE_CPUS = os.environ.get("VERIF_FAKE_CPUS")
+if _FAKE_CPUS:
+    _k = max(1, int(_FAKE_CPUS))
+    os.sched_getaffinity = lambda pid=0, _k=_k: set(range(_k))
+    os.cpu_count = lambda _k=_k: _k
+    if hasattr(os, "process_cpu_count"):
+        os.process_cpu_count = lambda _k=_k: _k
+    import multiprocessing as _mp
+    _mp.cpu_count = lambda _k=_k: _k
+
 import numpy as np  # noqa: E402
 
 try:
